@@ -141,6 +141,10 @@ def deep_oracle(case, meta, out):
     return None
 
 
+def answered(x):
+    """a harness / runner line that is an answer (not empty, not the driver's marker for a dead or silent process)"""
+    return bool(x) and not x.startswith(("CRASH", "HANG", "TIMEOUT", "NOANSWER"))
+
 def strip_impl(o):
     o = re.sub(r" MEM \d+", "", o)
     i = o.find(" ORACLE-FAIL")
@@ -195,6 +199,7 @@ def run_prim(chk, replay=None):
             bins.append(("release", hb2))
     model = [re.sub(r"panic \w+", "panic", l) for l in core.run_lines(core.RUNNER, cases)] if have_model else None
     failing, mism = [], []
+    compared = oracled = 0      # pairs (implementation answer, model answer) actually compared / answers put to the oracle
     kinds = {}
     for c, meta in items:
         kinds[meta[0]] = kinds.get(meta[0], 0) + 1
@@ -203,6 +208,7 @@ def run_prim(chk, replay=None):
     for prof, b in bins:
         impl = core.run_lines(b, cases)
         for (c, meta), o in zip(items, impl):
+            oracled += 1
             why = oracle(c, meta, o)
             outcome[o.split(" ")[0] + ((" " + o.split(" ")[1]) if o.startswith("err") else "")] = \
                 outcome.get(o.split(" ")[0] + ((" " + o.split(" ")[1]) if o.startswith("err") else ""), 0) + 1
@@ -210,6 +216,11 @@ def run_prim(chk, replay=None):
                 failing.append((c, meta, "%s [%s build]" % (why, prof), o))
         if model is not None:
             for c, o, m in zip(cases, impl, model):
+                if not (answered(o) and answered(m)):
+                    if answered(o) != answered(m):
+                        mism.append((c, o, m, prof))
+                    continue
+                compared += 1
                 if strip_impl(o) != m:
                     mism.append((c, o, m, prof))
     # hostile nesting: every case in its own process (an overflow of the native stack kills the process; the driver then
@@ -229,12 +240,14 @@ def run_prim(chk, replay=None):
             for (c, meta), o in zip(deep, douts):
                 kinds[meta["kind"]] = kinds.get(meta["kind"], 0) + 1
                 chk.count(c[:200] + str(len(c)), True)
+                oracled += 1
                 why = deep_oracle(c, meta, o)
                 if why:
                     failing.append((c, (meta["kind"], meta["nest"]), "%s [%s build]" % (why, prof), o))
     for c in ((cases[0], cases[len(cases) // 3], cases[-1]) if cases else ()):
         chk.sample(c[:300])
-    chk.cov["disagreements_checked"] = len(cases) * len(bins)
+    chk.cov["disagreements_checked"] = compared
+    chk.cov["oracle_checked"] = oracled
     chk.cov["model_impl_mismatches"] = len(mism)
     chk.cov["distribution"] = dict(kinds=kinds, outcomes=outcome,
                                    max_input_bytes=max((len(c.split(" ")[4 if c.startswith("sk ") else 3]) // 2 for c in cases), default=0))
